@@ -146,8 +146,8 @@ def mutated_params(prog, fn: Fn) -> Set[str]:
     return out
 
 
-def rule_shared_mutables(run, prog):
-    run.rule("R-6.1", "no function mutates a module-level or class-level mutable object (lists/dicts/sets bound at import "
+def rule_shared_mutables(run, prog, rid="R-6.1"):
+    run.rule(rid, "no function mutates a module-level or class-level mutable object (lists/dicts/sets bound at import "
              "time) or a mutable default argument: directly, through a local alias bound without copy, by storing it "
              "into an attribute, or by passing it to a repository function that mutates that parameter", floor=80)
     gm = global_mutables(prog)
@@ -277,12 +277,12 @@ def rule_shared_mutables(run, prog):
         descs = sorted({d.replace(" (alias)", "") for d in shared.values()})
         for d in descs:
             ps = problems.get(d, [])
-            run.ob("R-6.1", f"{fn.key}::shared[{d}]", not ps,
+            run.ob(rid, f"{fn.key}::shared[{d}]", not ps,
                    f"{fn.qual} mutates shared state {d}: " + "; ".join(f"{w} at line {getattr(nd, 'lineno', '?')}" for nd, w in ps[:3]),
                    ps[0][0] if ps else fn.node)
         for d, ps in problems.items():
             if d not in descs:
-                run.ob("R-6.1", f"{fn.key}::shared[{d}]", False,
+                run.ob(rid, f"{fn.key}::shared[{d}]", False,
                        f"{fn.qual} mutates class-level state {d}: " + "; ".join(w for _, w in ps[:3]), ps[0][0])
 
 
@@ -919,9 +919,15 @@ def rule_ambient(run, prog):
                 t = text(n)
             if t in AMBIENT:
                 k = (fn.key, t)
-                run.ob("R-6.6", f"{fn.key}::ambient[{t}]", k in AMBIENT_ALLOWED,
+                why = AMBIENT_ALLOWED.get(k)
+                if why is None and t in ("os.path.abspath", "os.path.realpath") and fn.cls is not None \
+                        and (fn.cls.name == "_formatter" or prog.is_sub(fn.cls.name, "_formatter")):
+                    # any method of a formatter (not only __str__): the formatters run after the analysis and are views of
+                    # its result (R-16.4); how they spell the path decides no diagnostic
+                    why = "presentation of the path in a report"
+                run.ob("R-6.6", f"{fn.key}::ambient[{t}]", why is not None,
                        f"{t} read in the analysis path: the verdict would depend on something other than the file", n,
-                       allowed_because=AMBIENT_ALLOWED.get(k))
+                       allowed_because=why)
     # module-level ambient reads (import time) in analysis modules
     for rel, mod in prog.mods.items():
         if rel == "__main__.py":
